@@ -552,3 +552,69 @@ class FxInterp(Interp):
                 return env['.' + name]
             raise Unanalysable(f'field `{name}` unbound')
         return super().val(e, env)
+
+
+import math
+
+
+class FloatInterp(Interp):
+    """Pure-expression evaluation over IEEE doubles (Python floats): used to tabulate float
+    predicates / case tables over representative values of the classes
+    {-nan, nan, -0.0, 0.0, finite integral, finite fractional, -inf, +inf}."""
+    CONSTS = {'INFINITY': math.inf, 'NEG_INFINITY': -math.inf, 'NAN': math.nan, 'MAX': 1.7976931348623157e308,
+              'MIN': -1.7976931348623157e308, 'EPSILON': 2.220446049250313e-16}
+
+    def val(self, e, env):
+        k = e.get('k')
+        if k == 'lit' and e.get('lk') == 'float':
+            return float(e['v'].replace('_', '').replace('f64', '').replace('f32', ''))
+        if k == 'path' and e.get('res', '').startswith('AssocConst'):
+            p = e.get('path') or ''
+            seg = last_seg(p)
+            if ('f64' in p or 'f32' in p) and seg in self.CONSTS:
+                return self.CONSTS[seg]
+        if k == 'mcall':
+            name = e.get('name')
+            if name in ('is_sign_negative', 'is_sign_positive', 'is_nan', 'is_infinite', 'is_finite', 'abs', 'copysign', 'fract', 'trunc', 'floor'):
+                x = self.val(e['recv'], env)
+                if isinstance(x, (int, float)) and not isinstance(x, bool):
+                    x = float(x)
+                    if name == 'is_sign_negative':
+                        return math.copysign(1.0, x) < 0
+                    if name == 'is_sign_positive':
+                        return math.copysign(1.0, x) > 0
+                    if name == 'is_nan':
+                        return math.isnan(x)
+                    if name == 'is_infinite':
+                        return math.isinf(x)
+                    if name == 'is_finite':
+                        return math.isfinite(x)
+                    if name == 'abs':
+                        return abs(x)
+                    if name == 'copysign':
+                        return math.copysign(x, float(self.val(e['args'][0], env)))
+                    if name == 'fract':
+                        return math.fmod(x, 1.0) if math.isfinite(x) else math.nan
+                    if name == 'trunc':
+                        return float(math.trunc(x)) if math.isfinite(x) else x
+                    if name == 'floor':
+                        return float(math.floor(x)) if math.isfinite(x) else x
+        if k == 'binary' and e.get('op') == '%':
+            a = self.val(e['a'], env)
+            b = self.val(e['b'], env)
+            if isinstance(a, float) or isinstance(b, float):
+                if math.isinf(a) or math.isnan(a) or b == 0:
+                    return math.nan
+                return math.fmod(a, b)
+        if k == 'unary' and e.get('op') == '-':
+            v = self.val(e['a'], env)
+            if isinstance(v, float):
+                return -v
+        return super().val(e, env)
+
+
+FLOAT_REPS = {
+    '-nan': -math.nan if math.copysign(1.0, -math.nan) < 0 else math.copysign(math.nan, -1.0), 'nan': math.copysign(math.nan, 1.0),
+    '-0.0': -0.0, '0.0': 0.0, '2.0': 2.0, '-2.0': -2.0, '1e20': 1e20, '1.5': 1.5, '-1.5': -1.5, '5e-324': 5e-324,
+    'max': 1.7976931348623157e308, '-max': -1.7976931348623157e308, 'inf': math.inf, '-inf': -math.inf,
+}
